@@ -144,6 +144,13 @@ func (n *Net) listenUDP(network string, laddr, raddr *net.UDPAddr) (*UDPConn, er
 	}
 	n.mu.Lock()
 	defer n.mu.Unlock()
+	if n.UDPDialFault != nil && raddr != nil {
+		// called under n.mu: the hook must not call back into the network
+		if err := n.UDPDialFault(nd, raddr.String()); err != nil {
+			n.countL("fault.udp_dial", 1)
+			return nil, &net.OpError{Op: "dial", Net: network, Addr: raddr, Err: err}
+		}
+	}
 	if n.ListenFault != nil && raddr == nil {
 		if err := n.ListenFault(nd, "udp/"+key(ip, port)); err != nil {
 			n.countL("fault.listen", 1)
